@@ -175,11 +175,16 @@ inline rc::Gen<ZoneSpec> zone_gen() {
     TypeSpec t0{*utoff_gen(), false, "LMT"};
     if (*vf::range<int>(0, 3) != 0) t0.utoff = *vf::range<int>(-50000, 50000);
     if (*vf::range<int>(0, 9) == 0) t0.isdst = true;  // unreferenced DST type 0 (W4)
+    // Old-layout files (pre-2018 zic): type 0 is a DST type that transitions DO refer to.  What applies before the first
+    // transition is then outside the property (counted as unspecified by the model-based oracles), but every
+    // relation that involves cctz alone (round trip, order, from/to vs lookup, chain symmetry) still has to hold.
+    const bool legacy_type0 = *vf::range<int>(0, 11) == 0;
+    if (legacy_type0) t0.isdst = true;
     z.types.push_back(t0);
     auto type_index = [&](const TypeSpec& t) -> int {
       for (size_t i = 0; i < z.types.size(); ++i)
         if (z.types[i].utoff == t.utoff && z.types[i].isdst == t.isdst && z.types[i].abbr == t.abbr) {
-          if (i == 0 && z.types[0].isdst) continue;  // keep a DST type 0 unreferenced
+          if (i == 0 && z.types[0].isdst && !legacy_type0) continue;  // keep a DST type 0 unreferenced
           return (int)i;
         }
       z.types.push_back(t);
@@ -203,12 +208,30 @@ inline rc::Gen<ZoneSpec> zone_gen() {
         int ds = *rc::gen::weightedOneOf<int>({{8, vf::range<int>(0, 364)}, {2, rc::gen::element(0, 1, 58, 59, 60, 363, 364)}});
         int dd = *vf::range<int>(40, 325);
         int k1 = *rc::gen::weightedElement<int>({{6, 0}, {2, 1}, {2, 2}}), k2 = *rc::gen::weightedElement<int>({{6, 0}, {2, 1}, {2, 2}});
+        // half of the time the special day (1 Jan, 31 Dec, 28/29 Feb, 1 Mar) belongs to the END of DST instead
+        const bool special_is_end = *vf::range<int>(0, 1) == 1;
+        if (special_is_end) ds = ((ds - dd) % 365 + 365) % 365;
         P.start = date_for_doy(k1, ds); P.end = date_for_doy(k2, ds + dd);
         // "last week" forms: only where the day really lies in the last 7 days of its month
         // (week 5 moves the date by at most 6 days, well inside the 40-day separation)
         if (P.start.kind == px::Date::M && P.start.week == 4 && *vf::range<int>(0, 1)) P.start.week = 5;
         if (P.end.kind == px::Date::M && P.end.week == 4 && *vf::range<int>(0, 1)) P.end.week = 5;
         P.start.time = *rule_time_gen(); P.end.time = *rule_time_gen();
+        if (*vf::range<int>(0, 5) == 0) {  // small non-negative / negative times right at midnight (year-boundary spills)
+          px::Date& d = *vf::range<int>(0, 1) ? P.start : P.end;
+          d.time = *rc::gen::element<int32_t>(0, 1, 59, 1800, 3599, 3600, -1, -1800, -3600, 86399, 86400, 86401);
+        }
+        if (*vf::range<int>(0, 24) == 0) {
+          // a yearly change within about an hour of time_point::max() (292277026596-12-04T15:30:07Z): the gap/overlap straddles the limit
+          px::Date& d = *vf::range<int>(0, 1) ? P.start : P.end;
+          px::Date& other = (&d == &P.start) ? P.end : P.start;
+          d.kind = *vf::range<int>(0, 1) ? px::Date::J : px::Date::N;
+          d.day = d.kind == px::Date::J ? 338 : 338;  // 4 December (the year of max() is a leap year: J338 = Dec 4, n 338 = Dec 4)
+          const int32_t local = (&d == &P.start) ? P.std_off : P.dst_off;
+          d.time = 15 * 3600 + 30 * 60 + 7 + local + *rc::gen::element<int32_t>(0, 1, -1, 60, -60, 1800, -1800, 3599, -3599, 3600, -3600);
+          if (d.time > 167 * 3600) d.time = 167 * 3600; if (d.time < -167 * 3600) d.time = -167 * 3600;
+          other = date_for_doy(*vf::range<int>(0, 2), *vf::range<int>(100, 250));
+        }
       }
     }
     // --- history
@@ -229,6 +252,7 @@ inline rc::Gen<ZoneSpec> zone_gen() {
       int how = *vf::range<int>(0, 9);
       bool twin = false;
       if (how == 0 && i > 0) { nt = z.types[prev_type]; twin = *vf::range<int>(0, 1) == 1; }  // no-op: same type again, or its twin
+      else if (how == 1 && legacy_type0 && i > 0 && prev_type != 0) nt = z.types[0];
       else if (how == 1 && z.types.size() > 1) nt = z.types[1 + *vf::index(z.types.size() - 1)];
       else if (how == 2 && i > 0) { nt = z.types[prev_type]; nt.isdst = !nt.isdst; }                 // isdst-only change
       else if (how == 3 && i > 0) { nt = z.types[prev_type]; nt.abbr = *abbr_gen(); }                // abbreviation-only change
@@ -249,6 +273,9 @@ inline rc::Gen<ZoneSpec> zone_gen() {
         int64_t gap = *rc::gen::weightedOneOf<int64_t>({{2, rc::gen::just<int64_t>(0)}, {2, vf::range<int64_t>(0, 86400)},
                                                         {4, vf::range<int64_t>(86400, 400 * 86400)}, {2, vf::range<int64_t>(Y, 30 * Y)}});
         t += need + gap;
+        // legacy files: the type in force before the first transition is chosen by a heuristic, so the size of the first
+        // change is not known here; keep the second entry clear of any possible size (offsets span < 48 h)
+        if (legacy_type0 && i == 1) t += 2 * 86400;
       }
       if (z.version == 1 && t > INT32_MAX) break;
       z.trans.push_back(zm::Trans{t, ti});
